@@ -436,6 +436,105 @@ theorem perp {γ : Gate} (hγ : γ ∈ pb.gates) {c q : Pt} (hc : c ∈ gateCell
     · rw [← hi1]
     · rw [← hi1]
 
+omit R in
+theorem gatesUpTo_eq {k : Nat} (hk : k < L) : gatesUpTo pb (tourOf L g) k = cnt pb g k := by
+  unfold gatesUpTo cnt
+  rw [tourOf_take L g (by omega : k + 1 ≤ L)]
+  congr 1
+  funext p
+  exact (onGate_eq pb p).symm
+
+/-- Rules 4 and 5 for one gate. -/
+theorem gate_rule (hb : ∀ p : Pt, p.1 < pb.height → p.2 < pb.width → 0 ≤ ordS pb σ p ∧ ordS pb σ p ≤ pb.gates.length)
+    {γ : Gate} (hγ : γ ∈ pb.gates) :
+    ∃ k, k < (tourOf L g).length ∧ (tourOf L g).getD k (originN pb) ∈ gateCellsN γ ∧
+      (∀ j, j < (tourOf L g).length → (tourOf L g).getD j (originN pb) ∈ gateCellsN γ → j = k) ∧
+      crossesStraight γ ((tourOf L g).getD (prv (tourOf L g).length k) (originN pb)) ((tourOf L g).getD k (originN pb))
+        ((tourOf L g).getD (nxt (tourOf L g).length k) (originN pb)) ∧
+      (1 ≤ γ.n → ((gatesUpTo pb (tourOf L g) k : Nat) : Int) = γ.n) := by
+  have hL : 0 < L := R.cg.pos
+  have hnd : (pb.gates.flatMap gateCellsN).Nodup := R.hw.2.2.2.2.2.2.2.2
+  obtain ⟨hc, hpc⟩ := phi_spec R hγ
+  obtain ⟨b1, b2⟩ := gate_cell_board R hγ hc
+  obtain ⟨k, hk, hgk⟩ := on_tour R b1 b2 hpc
+  have hk0 : k ≠ 0 := by
+    rintro rfl
+    have := isGateCell_of_mem pb hγ hc
+    rw [← hgk, R.g0, ← onGate_eq, onGate_origin R.hw] at this
+    cases this
+  have hprev : g (k - 1 + 1) = g k := by rw [Nat.sub_add_cancel (by omega)]
+  rw [tourOf_length]
+  refine ⟨k, hk, ?_, ?_, ?_, ?_⟩
+  · rw [tourOf_getD L g _ hk, hgk]; exact hc
+  · intro j hj hjc
+    rw [tourOf_getD L g _ hj] at hjc
+    obtain ⟨_, _, hpj, _⟩ := cyc_facts R j
+    have := countP_one_unique _ _ (R.hloc.gates γ hγ) (g j) (g k) hjc (by rw [hgk]; exact hc) hpj (by rw [hgk]; exact hpc)
+    exact R.cg.inj j k hj hk this
+  · unfold nxt prv
+    rw [tourOf_getD L g _ hk, tourOf_getD L g _ (Nat.mod_lt _ hL), tourOf_getD L g _ (Nat.mod_lt _ hL),
+      ← R.cg.mod (k + 1), ← R.cg.mod (k + L - 1), show k + L - 1 = (k - 1) + L by omega, R.cg.per]
+    obtain ⟨_, _, hp1, _⟩ := cyc_facts R (k - 1)
+    obtain ⟨_, _, hp2, _⟩ := cyc_facts R (k + 1)
+    have hck : g k ∈ gateCellsN γ := by rw [hgk]; exact hc
+    have hpk : pasS pb σ (g k) = true := by rw [hgk]; exact hpc
+    have s1 : stepOn (pb.height - 1) (pb.width - 1) (onOf (pb.height - 1) (pb.width - 1) σ) (g k) (g (k - 1)) := by
+      have := stepOn_symm (R.cg.step (k - 1))
+      rwa [hprev] at this
+    have e1 := perp R hγ hck hpk s1 hp1
+    have e2 := perp R hγ hck hpk (R.cg.step k) hp2
+    unfold crossesStraight
+    cases hd : γ.d <;> rw [hd] at e1 e2 <;> exact ⟨e1, e2⟩
+  · intro hn
+    rw [gatesUpTo_eq hk]
+    have hgid : gidF pb.gates (g k) = some γ.n := by rw [hgk]; exact gidF_of_mem pb hnd hγ hc
+    obtain ⟨c1, c2, hpk, hbk⟩ := cyc_facts R k
+    have hne : g k ≠ originN pb := by
+      have := ne_origin R (k - 1) (by omega)
+      rwa [hprev] at this
+    have h1 := (R.hloc.cell _ c1 c2).num hbk hne γ.n hgid hn hpk
+    have h2 := ord_cnt R k hk
+    rw [ord_origin R hb] at h2
+    omega
+
 end Tour
+
+/-- SOUNDNESS: a model of the constraints posted after the cycle constraint, whose drawn steps form a loop and whose
+`gate_ord` values respect their declared range, obeys the rules. -/
+theorem sound (pb : Problem) (σ : Asg) (hw : WellFormed pb) (hloc : Local pb σ)
+    (hloop : IsLoop (pb.height - 1) (pb.width - 1) (onOf (pb.height - 1) (pb.width - 1) σ))
+    (hb : ∀ p : Pt, p.1 < pb.height → p.2 < pb.width → 0 ≤ ordS pb σ p ∧ ordS pb σ p ≤ pb.gates.length) :
+    RulesOn pb (onOf (pb.height - 1) (pb.width - 1) σ) := by
+  have h1 := hw.1
+  have h2 := hw.2.1
+  obtain ⟨o1, o2, o3, o4⟩ := hw.2.2.2.2.1
+  have hor1 : (originN pb).1 < pb.height := by unfold originN; simp only []; omega
+  have hor2 : (originN pb).2 < pb.width := by unfold originN; simp only []; omega
+  obtain ⟨L, g, cg, hg, g0⟩ := origin_cycle pb σ h1 h2 hloc hor1 hor2 hloop
+  have R : Run pb σ L g := ⟨hw, hloc, cg, hg, g0⟩
+  refine ⟨hloop, ?_, tourOf L g, ?_, ?_⟩
+  · intro y hy x hx hbl
+    cases hon : onLoop (pb.height - 1) (pb.width - 1) (onOf (pb.height - 1) (pb.width - 1) σ) (y, x)
+    · rfl
+    · exfalso
+      unfold onLoop at hon
+      rw [List.any_eq_true] at hon
+      obtain ⟨s, hs, ho⟩ := hon
+      obtain ⟨hsv, ht⟩ := (C14.mem_pointSegs _ _ y x (by omega) (by omega) s).mp hs
+      have hst : ∃ q, stepOn (pb.height - 1) (pb.width - 1) (onOf (pb.height - 1) (pb.width - 1) σ) (y, x) q := by
+        rcases ht with ht | ht
+        · exact ⟨s.ends.2, s, hsv, ho, Or.inl (by rw [← ht])⟩
+        · exact ⟨s.ends.1, s, hsv, ho, Or.inr (by rw [← ht])⟩
+      obtain ⟨q, hq⟩ := hst
+      have hp : pasS pb σ (y, x) = true := by
+        rcases stepOn_goes pb σ hq with h | h
+        · exact (goes_facts pb σ h1 h2 hloc h).2.2.2.2.1
+        · exact (goes_facts pb σ h1 h2 hloc h).2.2.2.2.2
+      have := (hloc.cell (y, x) hy hx).blk hbl
+      rw [hp] at this; cases this
+  · rw [← g0]
+    exact isTour_of_cyc cg
+  · intro γ hγ
+    exact gate_rule R hb hγ
 
 end Cspuz.Proofs.C11SlalomA
